@@ -29,28 +29,28 @@ def describe():
 def units(tier, seed):
     q = tier == "quick"
     specs = [
-        {"sid": "basic", "family": "blocks", "size": 4 if q else 6, "donor": ("blocks", 4), "max_slices": 8 if q else 40},
-        {"sid": "list", "family": "lists", "size": 10 if q else 14, "donor": ("lists", 8), "max_slices": 8 if q else 40},
-        {"sid": "basic", "family": "inline_s", "size": 4 if q else 6, "donor": ("inline_s", 3), "max_slices": 10 if q else 30},
-        {"sid": "list", "family": "lists_q", "size": 8 if q else 11, "donor": ("lists_q", 7), "max_slices": 10 if q else 30},
-        {"sid": "list", "family": "astral", "size": 5 if q else 6, "donor": ("astral", 4), "max_slices": 8 if q else 30},
+        {"sid": "basic", "family": "blocks", "size": 4 if q else 5, "donor": ("blocks", 4), "max_slices": 8 if q else 16},
+        {"sid": "list", "family": "lists", "size": 10 if q else 11, "donor": ("lists", 8), "max_slices": 8 if q else 12, "blocks": 48},
+        {"sid": "basic", "family": "inline_s", "size": 4 if q else 5, "donor": ("inline_s", 3), "max_slices": 10 if q else 16},
+        {"sid": "list", "family": "lists_q", "size": 8 if q else 9, "donor": ("lists_q", 7), "max_slices": 10 if q else 16},
+        {"sid": "list", "family": "astral", "size": 5, "donor": ("astral", 4), "max_slices": 8 if q else 16},
         # blocks that carry node marks: a node-mark step and an edit inside the node are separated steps
-        {"sid": "topmarks", "family": "topmarks", "size": 4 if q else 6, "donor": ("topmarks", 3), "max_slices": 8 if q else 30},
+        {"sid": "topmarks", "family": "topmarks", "size": 4 if q else 5, "donor": ("topmarks", 3), "max_slices": 8 if q else 16},
     ]
     extra = [
-        {"sid": "table", "family": "table", "size": 10 if q else 14, "donor": ("table", 10), "max_slices": 10 if q else 30},
-        {"sid": "iso", "family": "iso", "size": 6 if q else 8, "donor": ("iso", 6), "max_slices": 10 if q else 30},
-        {"sid": "struct", "family": "struct", "size": 6 if q else 8, "donor": ("struct", 5), "max_slices": 10 if q else 30},
-        {"sid": "strict_hb", "family": "strict", "size": 9 if q else 11, "donor": ("strict", 8), "max_slices": 10 if q else 30},
-        {"sid": "title", "family": "title", "size": 8 if q else 11, "donor": ("title", 7), "max_slices": 10 if q else 30},
-        {"sid": "fixed", "family": "fixed", "size": 10 if q else 14, "donor": ("fixed", 8), "max_slices": 10 if q else 30},
+        {"sid": "table", "family": "table", "size": 10 if q else 12, "donor": ("table", 10), "max_slices": 10 if q else 16},
+        {"sid": "iso", "family": "iso", "size": 6 if q else 7, "donor": ("iso", 6), "max_slices": 10 if q else 16},
+        {"sid": "struct", "family": "struct", "size": 6 if q else 7, "donor": ("struct", 5), "max_slices": 10 if q else 16},
+        {"sid": "strict_hb", "family": "strict", "size": 9 if q else 10, "donor": ("strict", 8), "max_slices": 10 if q else 16},
+        {"sid": "title", "family": "title", "size": 8 if q else 9, "donor": ("title", 7), "max_slices": 10 if q else 16},
+        {"sid": "fixed", "family": "fixed", "size": 10 if q else 11, "donor": ("fixed", 8), "max_slices": 10 if q else 16},
     ]
     # documents with three and more children in one parent: a wrap / lift / retype around them and an edit of a MIDDLE one
     specs.append({"sid": "basic", "family": "three", "size": 7 if q else 8, "donor": ("three", 3), "max_slices": 4 if q else 8,
                   "min_children": 3, "tag": "three-children", "blocks": 4})
     for sp in specs + extra:
         sp["offset"] = seed
-        sp["depth"] = 1 if q else 2
+        sp["depth"] = 1  # (depth 2 - diamonds on successor documents - proved too expensive even for the thorough tier)
     if q:
         specs.append(extra[seed % len(extra)])
     else:
